@@ -8,6 +8,7 @@ import PgsVerif.Model.Persist
 import PgsVerif.Model.Gen
 import PgsVerif.Model.FailStop
 import PgsVerif.Model.AstNav
+import PgsVerif.Model.Valid
 import PgsVerif.Model.AstSem
 import PgsVerif.Model.AstSem2
 import PgsVerif.Model.Walk
@@ -268,7 +269,7 @@ end C14
 /-! ### AST engines -/
 namespace AST
 def engineC01 : Engine :=
-  mkEngine (I := World) (O := NavObs) navModel (fun _ => true) judgeNav
+  mkEngine (I := World) (O := NavObs) navModel validB judgeNav
 structure WorldP where
   w : World
   probes : List String
@@ -278,7 +279,7 @@ instance : FromJson WorldP where
     let ps : List String := ((j.getObjValAs? (List String) "probes").toOption).getD []
     pure ⟨w, ps⟩
 def engineC02 : Engine :=
-  mkEngine (I := WorldP) (O := C02Obs) (fun i => c02Model i.w i.probes) (fun _ => true) (fun i o => judgeC02 i.w i.probes o)
+  mkEngine (I := WorldP) (O := C02Obs) (fun i => c02Model i.w i.probes) (fun i => validB i.w) (fun i o => judgeC02 i.w i.probes o)
 def engineC03 : Engine :=
   mkEngine (I := World) (O := C03Obs) c03Model (fun _ => true) judgeC03
 def engineC04 : Engine :=
